@@ -520,9 +520,9 @@ impl<'a> Syn<'a> {
         let n = if exts { 16 } else { 8 };
         match self.rng.below(n) {
             0 => format!("{}scalar {}{}", self.desc(true, ""), self.name(), self.dirs(true)),
-            1 => format!("{}type {}{}{}{}", self.desc(true, ""), self.name(), self.implements(), self.dirs(true), self.fields()),
+            1 => { let d = self.desc(true, ""); let n = self.name(); let im = self.implements(); let ds = self.dirs(true); let body = if self.rng.chance(4, 5) { self.fields() } else { String::new() }; format!("{d}type {n}{im}{ds}{body}") }
             2 => { let d = self.desc(true, ""); let n = self.name(); let im = self.implements(); let ds = self.dirs(true); let body = if self.rng.chance(3, 4) { self.fields() } else { String::new() }; format!("{d}interface {n}{im}{ds}{body}") }
-            3 => { let d = self.desc(true, ""); let n = self.name(); let ds = self.dirs(true); let ms = match self.rng.below(4) { 0 => " = A".to_string(), 1 => " = | A | B".into(), 2 => " = A | B | on".into(), _ => " = A|B".into() }; format!("{d}union {n}{ds}{ms}") }
+            3 => { let d = self.desc(true, ""); let n = self.name(); let ds = self.dirs(true); let ms = match self.rng.below(5) { 0 => " = A".to_string(), 1 => " = | A | B".into(), 2 => " = A | B | on".into(), 3 => String::new(), _ => " = A|B".into() }; format!("{d}union {n}{ds}{ms}") }
             4 => { let d = self.desc(true, ""); let n = self.name(); let ds = self.dirs(true); let body = if self.rng.chance(3, 4) { self.enumvals() } else { String::new() }; format!("{d}enum {n}{ds}{body}") }
             5 => { let d = self.desc(true, ""); let n = self.name(); let ds = self.dirs(true); let body = if self.rng.chance(3, 4) { self.inputfields() } else { String::new() }; format!("{d}input {n}{ds}{body}") }
             6 => { let d = self.desc(true, ""); let n = self.name(); let a = self.argsdef(); let rep = if self.rng.chance(1, 3) { " repeatable" } else { "" };
@@ -807,7 +807,7 @@ fn main() {
 
     // 0. corpus: witnesses of the known findings and past disagreements
     for x in ["say \"hi\" \\ there", "\"", "\\", "multi\nline ending in \"", "a \"\"\" b\nc", "x\n\\", "", "plain", "tab\tcr\rbell\u{7}", "a\nb", "\u{1F600}\u{9f}\u{a0}"] { str_case(&mut out, x); }
-    for src in ["extend schema @a", "extend union U @d", "scalar S @d(a: \"q\\\"z\")", "type Q {\n  \"\"\"\n  desc\n  \"\"\"\n  f: Int\n}", "union V =\n\"x\" scalar S",
+    for src in ["extend schema @a", "extend union U @d", "scalar S @d(a: \"q\\\"z\")", "type Q {\n  \"\"\"\n  desc\n  \"\"\"\n  f: Int\n}", "union V\n\"x\" scalar S", "union W @d", "type A", "type B implements I", "\"d\" type C\ntype D @d",
                 "type Q { f(a: String = \"x\", b: [Int] = [1, 2] @d(x: {a: 1, b: \"s\"})): Int @d }\ninterface I\nextend type Q implements I\nenum E\ninput In @d\nschema @a @b(x: 1) { query: Q }"] {
         ts_case(&mut out, src, "corpus", true);
     }
